@@ -62,6 +62,9 @@ func c03Oracle(c ngapCase) ev.Verdict {
 	if w.OpenDepth >= 3 {
 		v.Classes = append(v.Classes, "open-type-depth>=3")
 	}
+	if c.Dirty > 0 {
+		v.Classes = append(v.Classes, "bitstring:unused-trailing-bits-set")
+	}
 	if lerr == nil && bytes.Equal(lb, rb) {
 		return v
 	}
@@ -408,8 +411,8 @@ func buildLeaf(rt *rapid.T, leaf leafSpec, p gen.P, n int64) interface{} {
 		v.SetUint(uint64(n))
 	case "bitstring":
 		b := rapid.SliceOfN(rapid.Byte(), int((n+7)/8), int((n+7)/8)).Draw(rt, "b")
-		if n%8 != 0 {
-			b[len(b)-1] &= 0xff << uint(8-n%8)
+		if n%8 != 0 && rapid.IntRange(0, 2).Draw(rt, "dirty") != 0 {
+			b[len(b)-1] &= 0xff << uint(8-n%8) // else: unused trailing bits stay set (not part of the value)
 		}
 		v.Field(0).SetBytes(b)
 		v.Field(1).SetUint(uint64(n))
